@@ -118,6 +118,7 @@ func privPass(w string) string { return "Pass" + w + "x123456" }
 const pubPass = "Pubpass123456"
 
 func (e *WEnv) reset() {
+	consensus.MASSIP0002WarmUpHeight = defaultWarmUpHeight // op `warmup` (eng_led.go) lowers it for one history
 	e.Close()
 	os.RemoveAll(e.dir)
 	os.MkdirAll(e.dir, 0700)
